@@ -16,5 +16,5 @@ INIT Init
 NEXT Next
 VIEW viewE
 CONSTRAINT ChanBound
-ACTION_CONSTRAINT ExportT
+ACTION_CONSTRAINT ExportAtomic
 CHECK_DEADLOCK FALSE
